@@ -321,7 +321,7 @@ func DecodeRA(icmp []byte) (*RAInfo, error) {
 				}
 			}
 		case OptRoute:
-			if o.Len >= 1 && o.Len <= 3 {
+			if o.Len >= 1 && o.Len <= 3 && b[1]>>3&3 != 2 { // RFC 4191 2.3: an option with the reserved preference (10) MUST be ignored
 				x := &RouteInfo{Len: b[0], Pref: b[1] >> 3 & 3, Lifetime: be.Uint32(b[2:]), OptLen: o.Len}
 				var a [16]byte
 				copy(a[:], b[6:])
